@@ -16,7 +16,7 @@ pub const RULE: &str = "case = (alphabet, count data from random sequence sets o
 pub const REQUIRED: &[&str] = &[
     "alphabet.dna", "alphabet.protein", "source.from_sequences", "source.raw_counts", "pseudo.scalar", "pseudo.zero",
     "pseudo.per_symbol", "bg.uniform", "bg.dyadic", "bg.zero_entries", "bg.tiny_positive_entry", "bg.from_counts", "bg.from_sequence",
-    "base.2", "base.10", "base.e", "base.3.7", "route.one_step", "route.two_step", "route.rescale", "route.from_impls",
+    "base.2", "base.10", "base.e", "base.3.7", "route.one_step", "route.two_step", "route.rescale", "route.from_impls", "route.default_background", "class.wildcard_frequency_under_default_background",
     "invalid.unequal_lengths", "invalid.unequal_lengths.empty_member", "invalid.unequal_lengths.leading_empty", "invalid.freq_row_sum", "invalid.freq_not_a_number", "route.transfac_record", "invalid.bg_out_of_range", "invalid.bg_negative_sum_one", "invalid.bg_sum", "invalid.bg_nan",
     "windows.bracketed", "class.neg_inf_score",
 ];
@@ -462,6 +462,58 @@ fn run_case<A: Alphabet>(case: u64, rng: &mut Rng, rep: &mut Report, alpha: &str
         if !rel_close(rescaled.background().frequencies()[j] as f64, bgv[j] as f64, 1e-6) || !rel_close(weight.background().frequencies()[j] as f64, bgv[j] as f64, 1e-6) {
             fail(rep, "c09.background", "the weight matrix does not carry the background it was built with".into(), &notes, J::Null);
             return;
+        }
+    }
+
+    // ---- the default background (`None`): the uniform one, whose wildcard frequency is zero, so
+    // the wildcard column weighs 0 and scores -inf on every route, also when the frequency matrix
+    // gives the wildcard some mass (motif instances containing N / X)
+    {
+        let res = guard(|| {
+            let w0 = freq.to_weight(None);
+            let s_two = w0.to_scoring();
+            let s_one = freq.to_scoring(None);
+            let s_into = freq.clone().into_scoring(None);
+            (w0, s_two, s_one, s_into)
+        });
+        match res {
+            Err(p) => {
+                fail(rep, &format!("c09.panic:{}", panic_site(&p)), format!("panic in the conversions with the default background: {}", p), &notes, J::Null);
+                return;
+            }
+            Ok((w0, s_two, s_one, s_into)) => {
+                rep.cover("route.default_background");
+                for i in 0..w {
+                    for j in 0..k {
+                        let f = freq.matrix()[i][j] as f64;
+                        let b = if j == k - 1 { 0.0 } else { uni };
+                        let w_ref = if b == 0.0 { 0.0 } else { f / b };
+                        let s_ref = if b == 0.0 || f == 0.0 { f64::NEG_INFINITY } else { (f / b).log2() };
+                        if j == k - 1 && f > 0.0 {
+                            rep.cover("class.wildcard_frequency_under_default_background");
+                        }
+                        if !rel_close(w0.matrix()[i][j] as f64, w_ref, 1e-5) {
+                            fail(rep, "c09.weight", format!("to_weight(None)[{}][{}] = {}, frequency / uniform background = {}", i, j, w0.matrix()[i][j], w_ref), &notes, J::Null);
+                            return;
+                        }
+                        for (name, got) in [("to_weight(None).to_scoring()", s_two.matrix()[i][j]), ("to_scoring(None)", s_one.matrix()[i][j]), ("into_scoring(None)", s_into.matrix()[i][j])] {
+                            if !rel_close(got as f64, s_ref, 2e-5) {
+                                fail(rep, "c09.score", format!("{}: score[{}][{}] = {}, log2(frequency / uniform background) = {} (frequency {})", name, i, j, got, s_ref, f), &notes, J::Null);
+                                return;
+                            }
+                        }
+                    }
+                }
+                for j in 0..k {
+                    let b = if j == k - 1 { 0.0 } else { uni };
+                    for (name, got) in [("to_weight(None)", w0.background().frequencies()[j]), ("to_scoring(None)", s_one.background().frequencies()[j]), ("into_scoring(None)", s_into.background().frequencies()[j])] {
+                        if !rel_close(got as f64, b, 1e-6) {
+                            fail(rep, "c09.background", format!("{}: background[{}] = {}, the default background has {}", name, j, got, b), &notes, J::Null);
+                            return;
+                        }
+                    }
+                }
+            }
         }
     }
 
